@@ -282,6 +282,19 @@ def tradeFor (w : World α) (b : Broker α) (nlv : α) (r : Rebal α) (alloc : L
     if below && (alloc.map (·.1)).contains k then .ok none
     else (mkTrade w k (some q') (b.ex.books k).bid (b.ex.books k).ask).map some
 
+/-- the loop of `make_trades`: one (possibly skipped) trade per imbalanced contract; the first rejection
+    aborts the whole computation -/
+def tradesFor (w : World α) (b : Broker α) (nlv : α) (r : Rebal α) (alloc : List (Key × α)) :
+    List (Key × Option α) → Except Err (List (Trade α))
+  | [] => .ok []
+  | kv :: rest =>
+      match tradeFor w b nlv r alloc kv.1 (kv.2.getD 0) with
+      | .error e => .error e
+      | .ok ot =>
+          match tradesFor w b nlv r alloc rest with
+          | .error e => .error e
+          | .ok ts => .ok (match ot with | some t => t :: ts | none => ts)
+
 def makeTrades (w : World α) (b : Broker α) (nlv : α) (r : Rebal α) : Except Err (List (Trade α)) :=
   let alloc := cleanAlloc w r.target
   let tgt : List (Key × Option α) :=
@@ -289,7 +302,7 @@ def makeTrades (w : World α) (b : Broker α) (nlv : α) (r : Rebal α) : Except
   let imb := imbalanceOf w b tgt r.absolute
   -- `_to_weights` raises on a NaN quantity before any trade is built
   if imb.any (fun kv => kv.2.isNone) then .error .unexpectedSign else
-  (imb.mapM fun kv => tradeFor w b nlv r alloc kv.1 (kv.2.getD 0)).map fun l => l.filterMap id
+  tradesFor w b nlv r alloc imb
 
 /-- second half of `Broker.rebalance`: execute the trades, snapshot, checkpoint -/
 def rebalanceExec (w : World α) (r : Rebal α) (interest nlvPre : α) (trades : List (Trade α))
